@@ -87,6 +87,12 @@ def verdicts(ctx, run, sched, hz, obs, stop, early, src, case):
     elif obs.raised is not None and not (stop and stop[0] == 'abort'):
         ctx.violation(f"payload-stream-raises:{type(obs.raised).__name__}", {**base, "exception": repr(obs.raised)[:200], "at": obs.raised_at}, case)
         return
+    if obs.partial_error is not None:
+        ctx.violation(f"closing-the-stopped-stream-raises:{type(obs.partial_error).__name__}",
+                      {**base, "exception": repr(obs.partial_error)[:200], "after_raise": obs.closed_after_raise}, case)
+        return
+    if obs.closed_after_raise:
+        ctx.count("streams_closed_after_they_raised")
     # phase 1: nothing more is released
     run.quiesce()
     hooks_before_drain = len(obs.hook_calls)
@@ -176,6 +182,8 @@ def check_request(ctx, seed, k):
         s0 = seed * 1000 + (1 if early else 0)
         p_async = rng.choice([0.3, 0.7, 1.0])
         policy = rng.choice(['random', 'fifo', 'lifo', 'slow-source', 'slow-consumer', 'phases', 'burst'])
+        if seed % 11 == 6 and rng.random() < 0.5:
+            policy = 'slow-consumer'       # producers run ahead of the consumer: stops meet results nobody has scheduled yet
         # the unstopped run tells how many payloads there are (and is itself a resolver/source-failure run)
         obs = one(ctx, schema, doc, src, variables, value_fn, s0, p_async, policy, early, None, rng.random() < 0.3, base_case)
         if obs is None or obs.kind != 'incremental':
@@ -203,6 +211,12 @@ def run_shard(ctx):
     base = ctx.seed * 19_000_043 + ctx.shard * 1_000_151
     for k in range(ctx.n(900, 15000)):
         check_request(ctx, base + k, k)
+    # the template families (streams on async sources, fragments split into several units of work, overlapping and
+    # list-nested fragments) get a share of their own: they are where stops meet half-built incremental state
+    for k in range(ctx.n(400, 8000)):
+        fam = (6, 6, 6, 10, 7, 9)[k % 6]
+        ctx.count("template_family_requests")
+        check_request(ctx, (base + k) * 11 + fam, k + 1)
 
 
 def replay(ctx, case):
